@@ -23,10 +23,10 @@ import (
 // C11 is the fault-enumeration engine (F mode): every API call index of every corpus
 // scenario x {reject, lost-reply, stop-before, stop-after}; pairs in the thorough tier.
 type C11 struct {
-	mu    sync.Mutex
-	base  map[string]*c11Base
-	plan  []c11Case
-	tier  string
+	mu   sync.Mutex
+	base map[string]*c11Base
+	plan []c11Case
+	tier string
 }
 
 type c11Base struct {
